@@ -592,7 +592,7 @@ func builtinArrayMap(call FunctionCall) Value {
 			if key := arrayIndexToString(index); thisObject.hasProperty(key) {
 				values[index] = iterator.call(call.runtime, callThis, thisObject.get(key), index, this)
 			} else {
-				values[index] = Value{}
+				values[index] = emptyValue
 			}
 		}
 		return objectValue(call.runtime.newArrayOf(values))
